@@ -87,8 +87,15 @@ func (m *Machine) zero(t types.Type) Value {
 	panic(fmt.Sprint("zero: unexpected ", t))
 }
 
-// Chan is a placeholder; channel operations are unsupported.
-type Chan struct{}
+// Chan is a channel: buffered sends/receives, close, and blocking receives
+// under the cooperative scheduler. Unbuffered rendezvous sends and select are
+// not supported.
+type Chan struct {
+	cap    int
+	buf    []Value
+	closed bool
+	elem   types.Type
+}
 
 // copyVal deep-copies aggregates (struct/array); other values are immutable
 // or have reference semantics.
